@@ -152,7 +152,11 @@ impl LazyKnownValues {
     /// This method guarantees that initialization occurs exactly once,
     /// even when called from multiple threads simultaneously.
     pub fn get(&self) -> std::sync::MutexGuard<'_, Option<KnownValuesStore>> {
+        #[cfg(feature = "verif_hooks")]
+        crate::verif_trace::record("once-enter", "KV");
         self.init.call_once(|| {
+            #[cfg(feature = "verif_hooks")]
+            crate::verif_trace::record("init-begin", "KV");
             let m = KnownValuesStore::new([
                 IS_A,
                 ID,
@@ -238,10 +242,25 @@ impl LazyKnownValues {
                 OUTPUT_DESCRIPTOR_TYPE,
             ]);
             *self.data.lock().unwrap() = Some(m);
+            #[cfg(feature = "verif_hooks")]
+            crate::verif_trace::record("init-end", "KV");
         });
         // A panic in a caller that held the guard must not make the registry
         // unusable for everyone else: recover the guard from a poisoned lock.
+        #[cfg(feature = "verif_hooks")]
+        {
+            let guard = self.data.lock().unwrap_or_else(std::sync::PoisonError::into_inner);
+            crate::verif_trace::record("locked", "KV");
+            return guard;
+        }
+        #[allow(unreachable_code)]
         self.data.lock().unwrap_or_else(std::sync::PoisonError::into_inner)
+    }
+
+    #[cfg(feature = "verif_hooks")]
+    #[doc(hidden)]
+    pub fn verif_is_locked(&self) -> bool {
+        self.data.try_lock().is_err()
     }
 }
 
